@@ -182,6 +182,9 @@ def operands(n):
 OPS = ['add', 'attr', 'item', 'label', 'lslice', 'replace', 'values_arr', 'values_bad', 'values_misshapen', 'values_scalar', 'add_attr', 'newattr', 'strict']
 
 
+LAST = {'array': None}      # the array most recently handed to the `values` setter (the caller keeps it)
+
+
 def apply(c, op, optag, opval, target, n, span, extra):
     """Apply one operation; returns a description; raises whatever the container raises."""
     if op == 'add':
@@ -197,7 +200,8 @@ def apply(c, op, optag, opval, target, n, span, extra):
     elif op == 'replace':
         c.replace_values(**{target: opval})
     elif op == 'values_arr':
-        c.values = np.full(np.shape(c.values), 2.0)
+        LAST['array'] = np.full(np.shape(c.values), 2.0)
+        c.values = LAST['array']
     elif op == 'values_bad':
         sh = np.shape(c.values)
         c.values = np.full((sh[0], (sh[1] if len(sh) > 1 else n) + 1), 2.0)
@@ -328,6 +332,14 @@ def step(ctx, c, twin, dtypes, hist, kind, n, span, op, optag, opval_factory, ta
             pass
         if aliased:
             ctx.violation('series-aliases-operand', f'{kind}: after {desc}, a label write to {target!r} changed the array it was assigned from', {'kind': kind, 'n': n, 'history': hist})
+            return False
+    if op == 'values_arr' and outcome == 'ok' and LAST['array'] is not None and LAST['array'].size:
+        # what the caller does to the array afterwards stays the caller's business
+        ctx.count('aliasing_probes')
+        probe = snap(c)
+        LAST['array'][...] = -321.0
+        if not series_same(probe, snap(c)):
+            ctx.violation('series-aliases-operand', f'{kind}: after values = <array>, changing that array in place changed the stored series', {'kind': kind, 'n': n, 'history': hist})
             return False
     ctx.count('operations_applied')
     ctx.seen('op_outcomes', f'{op}:{outcome}')
